@@ -5227,6 +5227,23 @@ func (iterGetNextOrUndef) exec(vm *vm) {
 	vm.pc++
 }
 
+// iterSkipNext advances the top iterator for an elision in an array pattern: the value is not read
+type iterSkipNext struct{}
+
+func (iterSkipNext) exec(vm *vm) {
+	l := len(vm.iterStack) - 1
+	iter := vm.iterStack[l].iter
+	if iter.iterator != nil {
+		if ex := iter.stepNoValue(); ex != nil {
+			vm.iterStack[l] = iterStackItem{}
+			vm.iterStack = vm.iterStack[:l]
+			vm.throw(ex)
+			return
+		}
+	}
+	vm.pc++
+}
+
 type copyStash struct{}
 
 func (copyStash) exec(vm *vm) {
